@@ -160,7 +160,8 @@ def r5(run, db):
     run.check(armed is not None, "armed-test", "cleanup tests the `armed` field directly", "cleanup does not test `self.armed` directly (e.g. it swaps it first)", cl.where())
     if armed is None:
         return
-    te = cl.edge_of(armed, "true")
+    armed_init, notify_init = guard_flag_inits(db)
+    te = cl.edge_of(armed, armed_init)          # the edge on which the flag still has its initial (= armed) value
     eff = [(o, c) for o, c, ch in inlined_calls(db, cl) if c.is_("ActorCell::set_status", "ActorCell::terminate", "ActorCell::notify_supervisor", "ActorCell::unlink")]
     for o, c in eff:
         run.check(te and cl.edge_dominates(te, o), "effect-on-armed:%s@%s" % (c.name.split("::")[-1], c.fn.value_consts(c.args[1])[0].split("::")[-1] if c.is_("ActorCell::set_status") and c.fn.value_consts(c.args[1]) else ""),
@@ -180,7 +181,7 @@ def r5(run, db):
                   "`armed` is written before the cleanup completed: a cleanup that unwinds part-way leaves the actor stuck in Stopping with waiters never released", cl.where(s.get("l")))
         if kind == "store":
             v = cl.value_consts(s["rv"]["op"]) if s["rv"]["k"] == "use" else []
-            run.check(v == ["false"], "armed-store-false", "the store writes `false`", "armed store writes %s" % v, cl.where(s.get("l")))
+            run.check(v == [other_bool(armed_init)], "armed-store-false", "the store writes the disarmed value (the opposite of the constructor's)", "armed store writes %s, the constructor's value is %s" % (v, armed_init), cl.where(s.get("l")))
     # no other body writes armed / notify_on_cancel except ctor and mark_running
     g = m.guard_adt()
     for f in db.crate_fns("ractor"):
@@ -216,6 +217,7 @@ def opt_shape(fn, op):
 def r6(run, db):
     m = model(db)
     armed_name, notify_name = guard_flags(db)
+    armed_init, notify_init = guard_flag_inits(db)
     for rt in m.runtimes():
         blk = m.spawn_block(rt)
         lp_root = db.root_of(m.loop_body(rt))
@@ -250,7 +252,7 @@ def r6(run, db):
                 run.anchor("%s loop-body Ok returns" % rt, len(oks), 1, lb.where())
                 run.check(bool(flags), "%s|killed-flag" % rt, "the loop result's was_killed flag is tested in the loop body", "the loop body does not test the was_killed flag of the loop result", lb.where())
                 for o in oks:
-                    good = any(nk and lb.edge_dominates(nk, o) for k, nk in flags)
+                    good = any(nk and edge_guards(lb, nk, o) for k, nk in flags)
                     run.check(good, "%s|Ok(state)-only-if-not-killed" % rt, "the loop body returns Ok (which the task reports together with the final state) only on the not-killed edge",
                               "the loop body returns Ok(reason) also when the loop reported was_killed, and the task turns every Ok into ActorTerminated(.., Some(state), ..): a killed actor is reported with its state (documented and required: no state after a kill; a kill landing in post_start/post_stop already reports None)", lb.where())
         lc_ = on_edge(e_c)
@@ -289,7 +291,7 @@ def r6(run, db):
             for ssite, sw in dr.switches():
                 roots = dr.origins(sw["discr"])
                 if any(any(e.endswith(":" + notify_name) for e in r.get("proj", [])) for r in roots):
-                    te = dr.edge_of(ssite, "true")
+                    te = dr.edge_of(ssite, other_bool(notify_init))
                     okgate = okgate or (te and dr.edge_dominates(te, site))
         run.check(okgate, "drop|gated", "the cancellation event exists only when notify_on_cancel is set", "the cancellation event is not gated by notify_on_cancel (a failed start would notify)", dr.where())
     # notify_on_cancel writers: constructor (false) and mark_running (true)
@@ -298,11 +300,11 @@ def r6(run, db):
         for site, s in f.stmts():
             if s["k"] == "assign" and any(e.endswith(":" + notify_name) for e in s["lhs"][1]):
                 v = f.value_consts(s["rv"]["op"]) if s["rv"]["k"] == "use" else []
-                run.check(f.id.endswith("::mark_running") and v == ["true"], "notify_on_cancel-writer:%s" % f.id, "%s sets notify_on_cancel = true" % f.id, "%s writes notify_on_cancel = %s" % (f.id, v), f.where(s.get("l")))
+                run.check(f.id.endswith("::mark_running") and v == [other_bool(notify_init)], "notify_on_cancel-writer:%s" % f.id, "%s switches the cancellation flag on (the opposite of the constructor's value)" % f.id, "%s writes the cancellation flag = %s (constructor: %s)" % (f.id, v, notify_init), f.where(s.get("l")))
         for site, s in f.aggregates(adt=g):
             rv = s["rv"]
             vals = dict(zip(rv["fields"], [f.value_consts(o) for o in rv["ops"]]))
-            run.check(vals.get(notify_name) == ["false"] and vals.get(armed_name) == ["true"], "guard-init:%s" % f.id, "guard starts armed and silent (notify_on_cancel=false)", "guard initial flags %s" % vals, f.where(s.get("l")))
+            run.check(vals.get(notify_name) == [notify_init] and vals.get(armed_name) == [armed_init], "guard-init:%s" % f.id, "guard starts armed and silent (constant flags %s / %s in every constructor)" % (armed_init, notify_init), "guard initial flags %s" % vals, f.where(s.get("l")))
 
 
 def r7(run, db):
